@@ -120,14 +120,14 @@ class Setup:
         vals = {"dyn_loss": a["w"]}
         if self.const_w is None:
             new_lw = type(loss.loss_weights)(**{f: vals.get(f, a["wo"]) for f in lwf})
-            loss = eqx.tree_at(lambda l: l.loss_weights, loss, new_lw)
+            loss = put_at(lambda l: l.loss_weights, loss, new_lw)
         if kind == "ODE":
             if "initial_condition" in on:
-                loss = eqx.tree_at(lambda l: l.initial_condition, loss, (a["t0"], a["u0"]))
+                loss = put_at(lambda l: l.initial_condition, loss, (a["t0"], a["u0"]))
             batch = ODEBatch(temporal_batch=a["pts"])
         else:
             if "norm_loss" in on:
-                loss = eqx.tree_at(lambda l: (l.norm_samples, l.norm_int_length), loss, (a["ns"], a["L"]))
+                loss = put_at(lambda l: (l.norm_samples, l.norm_int_length), loss, (a["ns"], a["L"]))
             border = None
             if "boundary_loss" in on:
                 border = jnp.stack([a["pts"][:1], a["pts"][:1] + 1.0], axis=-1) if (self.d == 1 or kind == "nonstatio") else None
